@@ -6,7 +6,8 @@ def classify(sig, what):
         return None
     if kw.startswith('$ref') or kw.startswith('type (only right)') or kw.startswith('format (only right)') or kw.startswith('items (only right)'):
         return 'L5: a definition that is only a $ref (alias) - or a property whose $ref points to such an alias - is generated as a Go type alias/definition of the target, so the scanner sees the target (or the next hop) instead of the original $ref: the $ref structure is not preserved (' + kw + ' at ' + site + ').'
-    if kw.startswith('allOf') or (site == 'definition-root' and (kw.startswith('properties (only right)') or kw.startswith('required (only right)'))):
+    fam = sig.split('in=')[1] if 'in=' in sig else ''
+    if kw.startswith('allOf') or ('allOf' in fam and site == 'definition-root' and (kw.startswith('properties (only right)') or kw.startswith('required (only right)'))):
         return 'L3: allOf of inline members is generated as one struct with embedded anonymous structs; the scanner reads it back as a plain object with merged properties: the allOf structure is lost.'
     if kw.startswith('additionalProperties'):
         return 'L4: additionalProperties declared next to properties is generated as a map field tagged json:"-" with custom (un)marshallers; the scanner does not read it back.'
@@ -18,7 +19,7 @@ def classify(sig, what):
         return 'L6: "Multiple Of:" doc comments of properties are emitted but read back by the scanner only for some types; multipleOf is lost at ' + site + '.'
     if kw.startswith('minProperties') or kw.startswith('maxProperties'):
         return 'L9: minProperties / maxProperties have no doc-comment annotation at all: the generated models enforce them in Validate only and the scanned schema loses them (' + kw + ' at ' + site + ').'
-    if site == 'property' and (kw.startswith('properties (only right)') or kw.startswith('required (only right)')):
+    if 'allOf' in fam and site == 'property' and (kw.startswith('properties (only right)') or kw.startswith('required (only right)')):
         return 'L3: a property whose schema is an inline allOf is generated as an anonymous struct; the scanner reads it back as a plain object with merged properties: the allOf structure is lost.'
     if kw.startswith('readOnly (only left)'):
         return 'L10: readOnly on a property of object type is generated as a field of a named struct type; the scanner renders the field as a bare $ref (siblings of $ref are not emitted), so the read-only flag is lost.'
